@@ -111,6 +111,8 @@ def direct(seed, tier, model, stats):
             dc = r.choice([0.5, 1, 2])
             inverse = r.random() < 0.5
             positional = r.random() < 0.4         # the DC gain as the sixth positional argument / by keyword
+            if r.random() < 0.3:
+                order = r.choice([np.int64, np.int32, np.int16])(order)      # an order taken from an integer array
             if inverse:
                 fn = (lambda x: ripasso.applyInverseRCFilter(x, SR, kind, fc, order, dc)) if positional else \
                      (lambda x: ripasso.applyInverseRCFilter(x, SR, kind, fc, order, DCgain=dc))
@@ -131,6 +133,21 @@ def direct(seed, tier, model, stats):
                 if d:
                     break
             gain = float(np.max(np.abs(H[np.isfinite(H)])))
+            if d is None:
+                # what a filter returns belongs to the caller: normalise it in place, the same call again is unaffected
+                x = np.zeros(N)
+                x[N // 2] = 1.0
+                try:
+                    y1 = fn(x.copy())
+                    keep = np.array(y1, copy=True)
+                    if isinstance(y1, np.ndarray) and y1.flags.writeable:
+                        y1 -= 0.5
+                        y1 *= 2.0
+                    y2 = fn(x.copy())
+                    if np.shape(y2) != np.shape(keep) or not np.array_equal(np.asarray(y2), keep):
+                        d = f"{label}: the same call returns other values after the caller wrote into the array it got the first time"
+                except Exception as e:  # noqa: BLE001
+                    d = f"{label}: raised {type(e).__name__}: {e}"
             if d is None:
                 # "for every real signal": also one whose samples are held as integers (array of ints, list, int16 counts)
                 j = r.randrange(N)
@@ -159,7 +176,7 @@ def direct(seed, tier, model, stats):
             if d is None and N <= 24 and gain < 1e6:
                 x = np.zeros(N)
                 x[r.randrange(N)] = 1.0
-                d = model_check(model, label, {"kind": kind, "inverse": inverse, "SR": bits(SR), "fcut": bits(fc), "order": order, "dc": bits(dc)},
+                d = model_check(model, label, {"kind": kind, "inverse": inverse, "SR": bits(SR), "fcut": bits(fc), "order": int(order), "dc": bits(dc)},
                                 x, fn(x), gain)
                 tested["model_calls"] += 1
             if d is None:
